@@ -245,8 +245,11 @@ def run_default(ctx: C.Ctx):
     ctx.rule = ('v1 (and, for the last clause, default-engine) class models nested to depth 3 with a well-typed document in which one '
                 'random position is replaced by junk, or a required key deleted, or an unknown key added under RAISE: every raised error '
                 'must derive from JSONWizardError, str(e) must return, and (type, class_name, field_name / missing / unknown) must equal the '
-                'Lean model\'s attribution (innermost class and field on the path to the first offending value). '
-                'Non-trivial = distinct (class model, mutated document) whose load raises.')
+                'Lean model\'s attribution (innermost class and field on the path to the first offending value); every document is loaded once more '
+                'with its JSON objects decoded as another mapping type (OrderedDict through from_json(object_pairs_hook=..) or from_dict, defaultdict, a dict '
+                'subclass; at every level / the root / below the root / one by one): a ParseError then names the same (class, field, value) as for the '
+                'plain-dict document, or the junk value\'s innermost (class, field) when the plain load lets a bare error escape, or a re-typed object that '
+                'itself cannot be converted. Non-trivial = distinct (class model, mutated document) whose load raises.')
     n = ctx.quick(1500, 20000)
     reqs, pend = [], []
     for i in range(n):
